@@ -324,6 +324,9 @@ class C01(Prop):
       mo = {'out': b[i]['out'], 'dump': sc.canon(b[i]['dump'])}
       if mo['out'] == 'diverges':
         return None
+      if b[i].get('keyed') is False:
+        # hypothesis of C01_step_Full: the glue never builds a dict literal with a repeated key
+        return 'step %d: the resolved operation is not well-keyed' % i
       if b[i].get('aliased'):
         # the model had to put one node object in two places: the real code must fail C01 here
         f = impl_out['fail']
